@@ -66,13 +66,13 @@ def schema_xsd(d0, dT, w, variant):
 
 def instance_xml(inst):
     at = ""
-    for n, attr in (("n0", "x"), ("nT", "t:y"), ("nA", "a:x"), ("nF", "f:x")):
+    for n, attr in (("n0", "x"), ("nT", "t:y"), ("nA", "a:x"), ("nF", "f:x"), ("nU", "t:u")):
         if inst[n] != "absent":
             at += f' {attr}="{VAL[inst[n]]}"'
     return f'<t:e xmlns:t="urn:T" xmlns:a="urn:A" xmlns:f="urn:F"{at}/>'
 
 
-KEY = {"n0": "@x", "nT": "@t:y", "nA": "@a:x", "nF": "@f:x"}
+KEY = {"n0": "@x", "nT": "@t:y", "nA": "@a:x", "nF": "@f:x", "nU": "@t:u"}
 
 
 def expected_dict(dec):
